@@ -13,6 +13,7 @@ def c26(tier, seed):
         J(AUTHZ, "VerifK26aListAuthorizedStores", cid=2 if q else 4),
         J(AUTHZ, "VerifK26cModulesForWrite", writes=2, deletes=1),
         J(SERVER, "VerifK26bListStores", stores=3, granted=2),
+        J(SERVER, "VerifK26dDenyGate"),
     ]
     if not q:
         jobs.append(J(AUTHZ, "VerifK26cModulesForWrite", writes=3, deletes=2, timeout_ms=600000))
@@ -86,7 +87,7 @@ SPEC = {
     },
     "C26": {
         "jobs": c26,
-        "level_text": "bounded symbolic execution of the real Authorizer (Authorize, AuthorizeCreateStore, AuthorizeListStores, ListAuthorizedStores, individualAuthorize, moduleAuthorize incl. its goroutines, getRelation, GetModulesForWriteRequest/extractModulesFromTuples over the real typesystem) against an access-control store whose Check answer is an uninterpreted function (allowed bit and error bit) of (relation, object): for every API method, caller kind (no claims / empty client id / arbitrary client id), module list and answer function the call is authorized exactly when the caller is identified and the store-level grant is allowed without error or 1..MaxModulesInRequest modules are all allowed without error; every delegated request addresses the control store, names application:<client id>, the documented relation of the method, the right object and contextual tuples, and carries the skip-authz marker. Server.ListStores is executed end to end (real Authorizer, ListStoresQuery, memory backend) with a symbolic set of granted store ids: every returned store must be granted",
+        "level_text": "bounded symbolic execution of the real Authorizer (Authorize, AuthorizeCreateStore, AuthorizeListStores, ListAuthorizedStores, individualAuthorize, moduleAuthorize incl. its goroutines, getRelation, GetModulesForWriteRequest/extractModulesFromTuples over the real typesystem) against an access-control store whose Check answer is an uninterpreted function (allowed bit and error bit) of (relation, object): for every API method, caller kind (no claims / empty client id / arbitrary client id), module list and answer function the call is authorized exactly when the caller is identified and the store-level grant is allowed without error or 1..MaxModulesInRequest modules are all allowed without error; every delegated request addresses the control store, names application:<client id>, the documented relation of the method, the right object and contextual tuples, and carries the skip-authz marker. Server.ListStores is executed end to end (real Authorizer, ListStoresQuery, memory backend) with a symbolic set of granted store ids: every returned store must be granted. (K26d) every RPC entry point of the real Server - Check, BatchCheck, ListObjects, StreamedListObjects, ListUsers, Expand, Read, Write, ReadChanges, Read/WriteAuthorizationModel(s), Read/WriteAssertions, Get/Delete/CreateStore and the AuthZEN Evaluation, Evaluations (all three semantics, 3 items), Subject/Resource/ActionSearch - is executed with the real Authorizer for a caller that is not entitled (control store denies / fails / would allow but the call has no client identity): the handler returns an error (an error per item for short-circuit Evaluations), no decision or data, and reaches neither the datastore (nil-backed stub: any access panics and is recorded) nor the model resolver (Write excepted: it needs the model to find the modules)",
         "level_note": "bounds: 19 method values (18 + unknown), 0..2 (quick) / 3 modules incl. a duplicated module, client id <= 2/4 ASCII bytes, control-store answers fork per asked (relation, object); ListStores: 0..3 stores in memory, 0..2/3 granted ids out of {A,B,C,unknown}, skip-authz and can_call_list_stores bits; write requests of <= 2+1 (quick) / 3+2 tuples over a 6-entry vocabulary (module from type, module from relation, shared module, no module, unknown relation, unknown type); request validation (regex) replaced by 'already validated' under the engine, real natively; trusted: engine semantics, z3",
         "assumptions": [
             "the access-control store's Check/ListObjects are functions of the request (stubbed ServerInterface); their own correctness is C01/C05",
@@ -94,7 +95,7 @@ SPEC = {
             "context.WithValue modelled as &valueCtx{parent,key,val} (key comparability check skipped)",
         ],
         "outside": [
-            "that every RPC handler calls checkAuthz before touching data (call-graph fact, not a solver query)",
+            "K26d uses one well-formed request per handler (request shapes are not symbolic); handlers are gated for the three non-entitled caller kinds, the positive direction (entitled callers are served) is not executed end to end",
             "SQL backends' ListStores id filter (query strings)",
             "more than 3 modules / stores",
         ],
